@@ -192,6 +192,9 @@ fn extra_templates() -> Vec<(&'static str, T)> {
         ("A(1)=\"s\" (ill-typed)", T::S(Stmt::Let(false, lvi("A", vec![num(1.0)]), st("s")))),
         ("DEF FNB(X)=FNA(X+1)+X", T::S(Stmt::Def("FNB".into(), vec!["X".into()], bin(Add, call("FNA", vec![bin(Add, var("X"), num(1.0))]), var("X"))))),
         ("IF X THEN GOSUB sub ELSE PRINT \"NO\"", T::S(Stmt::If(var("X"), br(Stmt::Gosub(SUB_LINE)), Some(br(pe(st("NO"))))))),
+        ("DEF ABS(X)=X*2", T::S(Stmt::Def("ABS".into(), vec!["X".into()], bin(Mul, var("X"), num(2.0))))),
+        ("PRINT ABS(0-3);INT(2.5)", T::S(p(vec![PItem::E(Expr::Abs(Box::new(bin(Sub, num(0.0), num(3.0))))), PItem::Semi, PItem::E(Expr::Int(Box::new(num(2.5))))]))),
+        ("DEF INT(N)=N+100", T::S(Stmt::Def("INT".into(), vec!["N".into()], bin(Add, var("N"), num(100.0))))),
         ("IF X THEN GOSUB sub", T::S(Stmt::If(var("X"), br(Stmt::Gosub(SUB_LINE)), None))),
         ("IF I=1 THEN FOR J=1 TO 2", T::S(Stmt::If(bin(Eq, var("I"), num(1.0)), br(Stmt::For("J".into(), num(1.0), num(2.0), None)), None))),
     ]
@@ -218,7 +221,7 @@ pub fn data_menu() -> Vec<(&'static str, T)> {
 
 /// User functions: definition, redefinition, dynamic scoping, failing bodies.
 pub fn fn_menu() -> Vec<(&'static str, T)> {
-    pick(&["DEF FNA(X)=X+Y", "DEF FNB(Y)=FNA(Y)", "DEF FNA(X)=X*2", "DEF FNC(X)=X/0", "Y=3", "X=X+1", "PRINT FNA(2)", "PRINT FNB(1)", "PRINT FNC(1)", "PRINT X;Y", "GOTO first", "DEF FNB(X)=FNA(X+1)+X"])
+    pick(&["DEF FNA(X)=X+Y", "DEF FNB(Y)=FNA(Y)", "DEF FNA(X)=X*2", "DEF FNC(X)=X/0", "Y=3", "X=X+1", "PRINT FNA(2)", "PRINT FNB(1)", "PRINT FNC(1)", "PRINT X;Y", "GOTO first", "DEF FNB(X)=FNA(X+1)+X", "DEF ABS(X)=X*2", "PRINT ABS(0-3);INT(2.5)", "DEF INT(N)=N+100"])
 }
 
 /// Arrays: explicit and implicit dimensioning, strides, subscript errors.
